@@ -443,7 +443,7 @@ def _fold_slice(ctx, R, slice_f, T_i):
             ctx.ob(R, slice_f.qname, f"dim{d} axis {a!r}: slicing by Cartesian name reduces matrix axis {pos} (the one the table assigns to {a!r})", got_axis == pos,
                    f"reduce_axis is called with matrix axis {got_axis}; interpret_indexing({a!r}, {MAT[:d]!r}) gives {pos}", slice_f.node, evidence=True)
             ctx.ob(R, slice_f.qname, f"dim{d} axis {a!r}: the data is cut on matrix axis {pos} at the voxel index of that axis", got_img == want_img,
-                   f"the slice is {got_img}; the table prescribes {want_img}", slice_f.node, evidence=bool(got_img and got_img.startswith("IMG[")))
+                   f"the slice is {got_img}; the table prescribes {want_img}" if got_img and got_img.startswith("IMG[") else f"data subscript not found in a comparable form: {got_img}", slice_f.node, evidence=bool(got_img and got_img.startswith("IMG[")))
     ctx.floor(R + ".slice", 6)
 
 
